@@ -234,4 +234,32 @@ def immutableFrom (defs : Defs) (roots : List String) : Bool :=
   roots.all (fun n => (findDef defs n).isSome) &&
   (reachable defs defaultFuel roots).all fun n => (fieldsOf defs n).all fun f => !mentionsInterior f.ty
 
+/-! ### statics (a sufficient structural condition for "the engine keeps no shared mutable state
+outside the values it is given") -/
+
+/-- A `static` item or a `thread_local!` / `lazy_static!` block, as extracted from the source. -/
+structure StaticDef where
+  name : String
+  /-- `static`, or the name of the (unexpanded) macro that declares it -/
+  kind : String
+  /-- `static mut` -/
+  mutable : Bool
+  src : String
+  ty : TyExpr
+  deriving Repr, Inhabited
+
+/-- A static can only ever be written once (at initialisation): it is a plain `static` (not
+`static mut`, not thread-local), and its type is `OnceLock<T>` / `LazyLock<T>` over a `T` free of
+cells, locks and atomics, or is itself free of them. -/
+def staticWriteOnce (defs : Defs) (s : StaticDef) : Bool :=
+  s.kind == "static" && !s.mutable &&
+  (match s.ty with
+   | .path "OnceLock" [t] => !mentionsInterior t
+   | .path "LazyLock" args => !mentionsInteriorList args
+   | t => !mentionsInterior t) &&
+  -- definitions of the table mentioned in the type are themselves immutable values
+  (mentioned s.ty).all fun n => (findDef defs n).isNone || immutableFrom defs [n]
+
+def staticsWriteOnce (defs : Defs) (l : List StaticDef) : Bool := l.all (staticWriteOnce defs)
+
 end TF.AutoTraits
